@@ -1415,6 +1415,9 @@ fn cmd_check(a: &Args) -> i32 {
                 "clock_reads": sum.clock_reads,
                 "external_programs_asked_for": sum.programs_spawned,
                 "external_programs_not_installed_by_decision": sum.programs_missing,
+                "open_file_limit_decisions": sum.fd_limit_decisions,
+                "opens_failed_with_emfile": sum.emfile,
+                "max_descriptors_open_at_once": sum.max_open_fds,
                 "stderr_prints_discarded": sum.stderr_prints,
                 "prints_after_process_exit_discarded": sum.prints_after_exit,
                 "hard_io_faults_in_gating_runs": "0 (deliberately not injected in gating runs: C18 does not say what a generator must do when its input is unreadable, see DESIGN §4.4)",
@@ -1519,6 +1522,9 @@ fn cmd_check(a: &Args) -> i32 {
                     "File::open streams: simulated short reads and EINTR (unused by today's generators, which read whole files)",
                     "threads and sync primitives (unused by today's generators): shuttle engine (coroutines on the simulator's OS thread) under the simulator's own Scheduler; deadlines of timed waits, available_parallelism() and the clock are simulator decisions",
                     "process: exit()/return from main freeze the captured output; env, args, cwd fixed",
+                    "disk that outlives the process (sessions): overlay of written files with modification times, fsync tracking, crash points at every mutation and print, kill / power-loss resolution; unused by today's generators, which write nothing",
+                    "metadata, modification times, Path/PathBuf queries (exists, is_file, metadata, read_dir): answered by the simulated file system",
+                    "open-file limit: descriptor accounting, EMFILE beyond a seeded ulimit once a program holds 200 descriptors (today's generators hold 2)",
                 ],
             },
             "replays": reported.iter().map(|(v, p)| json!({"signature": v.signature, "file": p.display().to_string()})).collect::<Vec<_>>(),
@@ -1529,7 +1535,9 @@ fn cmd_check(a: &Args) -> i32 {
         },
         "assumptions": [
             "the nondeterminism a maintainer's machine can present to the generators is: directory enumeration order, HashMap/HashSet iteration order, short reads/writes and EINTR on streams, and — for a generator that uses them — thread interleaving at synchronisation points, the core count, the clock and how long other threads are kept off the CPU; hard I/O errors are out of the property's scope",
-            "a run in which an injected stall let a deadline pass may fail loudly without being judged; it may not complete with a different table",
+            "a run in which an injected stall let a deadline pass, an open failed with the injected EMFILE, or — in a session — leftovers of earlier runs were found may fail loudly without being judged; it may not complete with a different table",
+            "crash model: a killed process loses nothing the kernel accepted (the write in progress may be torn); after a power loss every change not followed by fsync is old, new, torn or empty independently per path; rename is atomic; directory fsync is not modelled (a rename may be lost, never half done)",
+            "earlier data versions differ from the bundled data by missing / extra / exchanged child directories or missing / swapped entry lines, and changed files carry a different modification time; a change that keeps both length and modification time is not generated",
             "any permutation of a directory listing is a legal read_dir order; iteration order of a hash container is a function of its hasher keys, capacity and content, optionally rotated/reversed by the simulator",
             "serde_json's object map is a BTreeMap in this build (no preserve_order), as in the repository's own lock file",
             "the CLDR JSON files under unic-langid-impl/data are the source of truth; the reference reader (own subtag splitter and little-endian packer) and serde_json's JSON parser are trusted",
